@@ -72,6 +72,16 @@ CHECKS = {
   technique="runtime reference-model monitor: helper outputs versus independent encoders, and end-to-end OCRA codes for numeric questions versus the RFC 6287 model",
   text="Each helper runs on boundary/random 64-bit values and on strings of length 0..300 from digit/hex/sign/letter classes and is compared with an independent encoder (value-exact, or error / documented panic for malformed text); HexInputToOCRA over all 3^5 valid/invalid/empty combinations; decimal questions of every length 1..64 through the helper and GenerateOCRA must equal the RFC value.",
   design="7/C17"),
+ "C18": dict(
+  technique="black-box differential monitor on the real server binary over loopback: each HTTP response versus the in-process library call with exactly the request's parameters and versus the independent reference model (thorough: also a -race build of the server)",
+  text="The server is built from the working tree and driven with generated well-formed requests to all ten endpoints (fields present/absent, known and unknown digit/hash spellings, raw and structured suites, white space around secrets) from 1..32 client goroutines on reused and fresh connections; codes, verdicts, echoes, suite list/description, URL and secret responses are compared with the library and the reference; generated codes are fed back to the validate endpoints; 'timestamp omitted' is bracketed by the client's clock around the timestamp the server reports.",
+  note="Trusted: Go net/http client, reference models. The clock is only read to bracket the server-reported timestamp; no latency verdicts.",
+  design="7/C18"),
+ "C19": dict(
+  technique="black-box hostile-input monitor on the real server binary with per-request CPU accounting (/proc/<pid>/stat) and interleaved reference-checked probe requests; liveness restated as bounded progress",
+  text="A seeded shuffle of hostile requests (broken JSON, every field x every JSON type, numbers beyond 64-bit limits, skew/period extremes, unknown/contradictory suites, oversized bodies, every method x path, raw TCP fragments) is sent sequentially (server CPU time attributed per request: > 2 CPU-s is a violation) and on 32 connections; every response must be complete, 2xx only with the endpoint's success object; refused skews must not accept; probes judged by the C18 oracle must stay correct; the process must stay alive. Unbounded 'eventually' is not decidable by a run; a timeout with an idle server is inconclusive.",
+  note="Trusted: Linux /proc CPU accounting (100 Hz ticks), Go net/http client. Work is measured in CPU time, not latency, so machine load cannot raise an alarm.",
+  design="7/C19"),
 }
 
 PENDING_REASON = "monitor not built yet in this revision of /verif (work in progress; see DESIGN.md section 7 for the planned runtime monitor)"
